@@ -36,6 +36,8 @@ inductive Err where
   | dxfStructureError | indexError
   deriving DecidableEq, Repr
 
+deriving instance DecidableEq for Except
+
 def tSECTION : Tag := ⟨0, "SECTION"⟩
 def tENDSEC : Tag := ⟨0, "ENDSEC"⟩
 def tEOF : Tag := ⟨0, "EOF"⟩
@@ -263,6 +265,67 @@ def Spec.version (secs : List Section) : String :=
 def fileOf (pre : List Section) (es : List Ent) (post : List Section) : List Tag :=
   render (pre ++ ⟨"ENTITIES", flatEnts es⟩ :: post)
 
+/-! ## decidable well-formedness of a flat file -/
+
+/-- the tags up to the closing ENDSEC, and the rest of the file behind it -/
+def parseBody : List Tag → Option (List Tag × List Tag)
+  | [] => none
+  | t :: r =>
+    if t = tENDSEC then some ([], r)
+    else if t.code = 0 ∧ (t.val = "SECTION" ∨ t.val = "ENDSEC" ∨ t.val = "EOF") then none
+    else match parseBody r with
+      | some (b, r') => some (t :: b, r')
+      | none => none
+
+theorem parseBody_length (l b r : List Tag) (h : parseBody l = some (b, r)) : r.length < l.length := by
+  induction l generalizing b r with
+  | nil => simp [parseBody] at h
+  | cons t l ih =>
+    simp only [parseBody] at h
+    split at h
+    · simp only [Option.some.injEq, Prod.mk.injEq] at h; rw [← h.2]; simp
+    · split at h
+      · simp at h
+      · split at h
+        · rename_i b' r' heq
+          simp only [Option.some.injEq, Prod.mk.injEq] at h
+          have := ih b' r' heq
+          rw [← h.2]; simp only [List.length_cons]; omega
+        · simp at h
+
+/-- `SECTION, (2, name), body, ENDSEC` repeated, then `EOF` and nothing else -/
+def parseFile : List Tag → Option (List Section)
+  | [] => none
+  | t :: r =>
+    if t = tEOF then (if r = [] then some [] else none)
+    else if t = tSECTION then
+      match r with
+      | [] => none
+      | n :: r2 =>
+        if n.code = 2 then
+          match h : parseBody r2 with
+          | some (b, r3) => (parseFile r3).map (fun secs => ⟨n.val, b⟩ :: secs)
+          | none => none
+        else none
+    else none
+termination_by l => l.length
+decreasing_by
+  have := parseBody_length r2 b r3 h
+  simp only [List.length_cons]; omega
+
+/-- the sections in front of the first ENTITIES section, its body, the sections behind it -/
+def splitEnt : List Section → Option (List Section × List Tag × List Section)
+  | [] => none
+  | s :: r =>
+    if s.name = "ENTITIES" then some ([], s.body, r)
+    else match splitEnt r with
+      | some (pre, b, post) => some (s :: pre, b, post)
+      | none => none
+
+/-- what fileindex.load / single_pass_modelspace need of a section that is not ENTITIES -/
+def secOK (m : Nat) (s : Section) : Bool :=
+  s.name != "ENTITIES" && codesOK m s.body && (s.name != "HEADER" || headerOK s.body)
+
 /-! ## low level loaders (tag level) -/
 
 /-- `ascii_tags_loader` / `bytes_loader`: comments (999) are skipped, nothing is read beyond `(0, EOF)` -/
@@ -280,6 +343,44 @@ def compile (cfg : Cfg) (ts : List Tag) : List Tag :=
 /-- `byte_tag_compiler`: `x.value.strip().upper()` for code 0 -/
 def compileB (cfg : Cfg) (ts : List Tag) : List Tag :=
   ts.map (fun t => if t.code = 0 then ⟨0, cfg.upper (cfg.stripB t.val)⟩ else t)
+
+/-- Decidable well-formedness of a file: what the readers rely on.
+    sections bracketed and closed by EOF (`parseFile`); exactly one ENTITIES section; no comments; group codes
+    accepted by fileindex; HEADER without structure tags and without a dangling `$ACADVER`; ENTITIES body starts
+    with a structure tag, its linked structures are complete (`LinkOK`), the paperspace flag agrees with the owner
+    handle; a file newer than R12 has an OBJECTS section; structure tags carry no padding and are upper case. -/
+def FileWF' (cfg : Cfg) (m : Nat) (f : List Tag) : Bool :=
+  match parseFile f with
+  | none => false
+  | some secs =>
+    match splitEnt secs with
+    | none => false
+    | some (pre, body, post) =>
+      (pre ++ post).all (secOK m) && codesOK m body
+        && f.all (fun t => t.code != 999)
+        && (match body.head? with | some t => t.code == 0 | none => true)
+        && LinkOK cfg (groupTags body)
+        && (groupTags body).all (fun g => cfg.pspS g == cfg.psp g)
+        && (!decide ("AC1009" < Spec.version secs) || (pre ++ post).any (fun s => s.name == "OBJECTS"))
+        && compile cfg f == f && compileB cfg f == f
+        && cfg.managed "ENTITIES"
+
+/-- the linked entities of the ENTITIES section of a flat file (`[]` if the file does not parse) -/
+def Spec.linked (cfg : Cfg) (f : List Tag) : List Ent :=
+  match parseFile f with
+  | some secs => Spec.link cfg (Spec.entities secs)
+  | none => []
+
+/-- the modelspace content of a flat file (restricted to the requested types) -/
+def Spec.ofFile (cfg : Cfg) (f : List Tag) : List Ent :=
+  match parseFile f with
+  | some secs => Spec.modelspace cfg secs
+  | none => []
+
+/-- a result restricted to the requested types (the Drawing readers load every type) -/
+def onlyReq (cfg : Cfg) : Except Err (List Ent) → Except Err (List Ent)
+  | .ok es => .ok (es.filter (fun e => cfg.req (dxftype e.main)))
+  | .error e => .error e
 
 /-! ## entity linker + the two consumers of its verdict -/
 
